@@ -78,7 +78,8 @@ PROPS = {
         lean_core=["Props.C13"], lean_code=[], gen_funcs=[], harness="c13",
         assumptions=["_cleanup catches only ValidateTransactionError; other exceptions cannot arise for a pooled transaction and are treated as eviction in the model"]),
     "C12": dict(
-        lean_core=["Props.C13", "Props.C02", "Props.C12", "Props.C12Reach"], lean_code=[], gen_funcs=[], harness="c12",
+        lean_core=["Props.GenTie.Params", "Props.C13", "Props.C02", "Props.C12", "Props.C12Reach"],
+        lean_code=["Props.GenTie.MinerRule"], gen_funcs=["miner_found_effects"], harness="c12",
         assumptions=["partial: the clock corner head.timestamp >= clock + 30 is the known finding D5",
                      "candidate fits in one block (hsize); head id is not all zeros and its by-height index is stored (true of every state built from well-formed arrivals)"]),
     "C20": dict(
